@@ -169,6 +169,8 @@ def oracle_c03(rr: Any, spec: Dict[str, Any]) -> "tuple[List[Violation], Dict[st
             open_cb.discard(d)
         elif k == "task_start":
             running.add(d)
+            if A and len(running) > A:
+                v.append(Violation("over-admission", f"{len(running)} task functions running at once > max_async_tasks={A} at t={e['t']}"))
             if e.get("tok") in probe:
                 probe_running.add(d)
                 stats["probe_max"] = max(stats["probe_max"], len(probe_running))
@@ -421,9 +423,16 @@ def oracle_c07(rr: Any, spec: Dict[str, Any]) -> "tuple[List[Violation], int]":
             continue
         te = [e for e in evs if e["k"] == "task_end"]
         ts = first(evs, "task_start")
-        if ts is None:
-            continue
         m = spec["msgs"][d] if d < len(spec.get("msgs", [])) else {}
+        if ts is None:
+            # the body never started: only legitimate for a timeout label that has already expired
+            tmo = m.get("timeout")
+            if tmo is not None and tmo <= 0 and info.get("task") != "t_sync":
+                checked += 1
+                got = [r for dd, _, r in rr.sc.saved if dd == d]
+                if len(got) != 1 or not got[0].is_err or not isinstance(got[0].error, TimeoutError):
+                    v.append(Violation("timeout-result-wrong", f"delivery {d}: timeout label {tmo} but stored results {[(r.is_err, r.error) for r in got]}"))
+            continue
         beh = rr.sc.beh.get(info["tok"]) or {}
         checked += 1
         how = te[-1]["how"] if te else None
@@ -552,8 +561,8 @@ def oracle_c10(rr: Any, spec: Dict[str, Any]) -> "tuple[List[Violation], int]":
                     marks.append(f"mk_{e['mw']}_pre_send")
         if failed:
             se = first(evs, "send_err")
-            if se is None or se.get("exc") != "SendTaskError":
-                v.append(Violation("send-error-type", f"send {tok}: failed kick surfaced as {se and se.get('exc')}"))
+            if se is None or not se.get("is_send_error"):
+                v.append(Violation("send-error-type", f"send {tok}: failed kick ({se and se.get('cause')}) surfaced as {se and se.get('exc')}, not a SendTaskError"))
             if first(evs, "send_ok") is not None:
                 v.append(Violation("send-error-swallowed", f"send {tok}: kick failed but kiq() returned normally"))
         elif first(evs, "send_ok") is None:
